@@ -46,6 +46,7 @@ func cmdCrashChild(f hx.Flags, r *hx.Result) {
 		}
 		dir = "."
 	}
+	rollingLogger := kind == "rollinglogger" // the RollingFile logger kind (synchronous), not an appender behind a Logger
 	realRot := kind == "rolling" && f.Str("realrot", "") != ""
 	if realRot { // real one-second rotations with the shortest retention, in a zone far west of UTC
 		time.Local = time.FixedZone("WEST", -11*3600)
@@ -66,11 +67,16 @@ func cmdCrashChild(f hx.Flags, r *hx.Result) {
 		if realRot {
 			cfg["appender.out.rotation"] = "sec"
 			cfg["appender.out.maxAge"] = "1"
+			if f.Str("hugeage", "") != "" {
+				cfg["appender.out.maxAge"] = "876000" // "keep a hundred years"
+			}
 		}
+	case "rollinglogger":
+		cfg.AddRec("unused")
 	default:
 		cfg["appender.out.type"] = "Console"
 	}
-	twin := f.Str("twin", "") != "" && kind != "console"
+	twin := f.Str("twin", "") != "" && kind != "console" && kind != "rollinglogger"
 	if twin { // a second appender of the same kind on the same file: two descriptors, one target
 		for k, v := range cfg {
 			if strings.HasPrefix(k, "appender.out.") {
@@ -91,7 +97,12 @@ func cmdCrashChild(f hx.Flags, r *hx.Result) {
 		}
 		refs = append(refs, sys.Ref{Ref: "out2"})
 	}
-	cfg.AddLogger("lg", "Logger", "", "crash_tag", refs, twin, ex)
+	if rollingLogger {
+		cfg.AddLogger("lg", "RollingFile", "", "crash_tag", nil, false, map[string]string{"fileDir": dir, "fileName": "c.log", "rotation": "h",
+			"layout.type": layout})
+	} else {
+		cfg.AddLogger("lg", "Logger", "", "crash_tag", refs, twin, ex)
+	}
 	handle := log.GetLogger("lg")
 	if v := f.Str("bufcap", ""); v != "" {
 		cfg["bufferCap"] = v // the buffer-reuse cap; with padfixed the lines' buffers have exactly this capacity
@@ -124,9 +135,12 @@ func cmdCrashChild(f hx.Flags, r *hx.Result) {
 		fmt.Fprintf(ack, "ack %d\n", id)
 		log.Destroy()
 	}
-	if err := log.Refresh(cfg.Map(nil)); err != nil {
-		fmt.Fprintln(os.Stderr, "child refresh:", err)
-		os.Exit(7)
+	builtin := f.Str("builtin", "") != "" // after the earlier generations no configuration is live: the built-in console logger serves
+	if !builtin {
+		if err := log.Refresh(cfg.Map(nil)); err != nil {
+			fmt.Fprintln(os.Stderr, "child refresh:", err)
+			os.Exit(7)
+		}
 	}
 	rawEvery := f.Int("rawevery", 0)
 	var wg sync.WaitGroup
@@ -188,9 +202,10 @@ func cmdCrash(f hx.Flags, r *hx.Result) {
 	}
 	defer os.RemoveAll(tmp)
 	self, _ := os.Executable()
-	kinds := []string{"file", "rolling", "console"}
+	kinds := []string{"file", "rolling", "console", "rollinglogger"}
 	layouts := []string{"TextLayout", "JSONLayout"}
 	n := 0
+	rollVar := 0
 	sigs := map[string]bool{}
 	err = hx.ReadCases(f.Str("cases", ""), func(raw json.RawMessage) error {
 		var c crashCase
@@ -200,6 +215,9 @@ func cmdCrash(f hx.Flags, r *hx.Result) {
 		for rep := 0; rep < f.Int("variants", 2); rep++ {
 			n++
 			kind := kinds[n%3]
+			if n%7 == 5 {
+				kind = "rollinglogger"
+			}
 			layout := layouts[(n/3)%2]
 			dir := filepath.Join(tmp, fmt.Sprintf("c%d", n))
 			_ = os.MkdirAll(dir, 0o755)
@@ -211,11 +229,23 @@ func cmdCrash(f hx.Flags, r *hx.Result) {
 			if n%3 == 0 && layout == "TextLayout" {
 				args = append(args, "--rawevery", "3")
 			}
-			if kind == "rolling" && n%4 < 2 {
-				args = append(args, "--churn", "1")
+			if kind == "rolling" {
+				// variants of the rolling appender, chosen so that placements with several acknowledged calls meet each:
+				// rotation at every call (virtual clock); real one-second rotations in a far-west zone with the shortest
+				// retention; the same with a retention of a hundred years
+				rollVar++
+				switch {
+				case c.Calls >= 3 && c.K >= 3 && rollVar%3 == 1:
+					args = append(args, "--realrot", "1")
+				case c.Calls >= 3 && c.K >= 3 && rollVar%3 == 2:
+					args = append(args, "--realrot", "1", "--hugeage", "1")
+				case rollVar%2 == 0:
+					args = append(args, "--churn", "1")
+				}
 			}
-			if kind == "rolling" && n%4 >= 2 && n%8 < 6 && c.Calls >= 3 {
-				args = append(args, "--realrot", "1")
+			builtin := kind == "console" && n%4 == 3 // together with --gens: Refresh / Destroy cycles, then no live configuration
+			if builtin {
+				args = append(args, "--builtin", "1")
 			}
 			if kind != "console" && n%2 == 1 {
 				args = append(args, "--rel", "1")
@@ -223,7 +253,7 @@ func cmdCrash(f hx.Flags, r *hx.Result) {
 			if n%4 == 3 {
 				args = append(args, "--gens", "3")
 			}
-			twin := kind != "console" && c.Twin
+			twin := kind != "console" && kind != "rollinglogger" && c.Twin
 			if twin {
 				args = append(args, "--twin", "1")
 			}
